@@ -21,7 +21,7 @@ import ScadVerif.Props.C05
 import ScadVerif.Props.C07
 import ScadVerif.Lemmas.MeshLemmas
 namespace ScadVerif.C04
-open ScadVerif ScadVerif.Dim3 ScadVerif.Dim3.Polyhedron ScadVerif.Spec ScadVerif.MeshLemmas
+open ScadVerif ScadVerif.Dim3 ScadVerif.Dim3.Polyhedron ScadVerif.Spec ScadVerif.MeshLemmas ScadVerif.TriLemmas
 
 /-- the quad strip between two rings has one quad per profile edge -/
 theorem strip_length (n lo hi : Nat) : (strip n lo hi).length = n := by simp [strip]
@@ -105,7 +105,7 @@ theorem cylinder_valid (r height : ℝ) (seg : Nat) (p : Polyhedron ℝ) (h : cy
 /-- the C03 certificate for a cap: the ring's edges once each, in the stated direction, every other
 edge of the cap in both directions -/
 def CapTiles (n r : Nat) (forward : Bool) (cap : List (List Nat)) : Prop :=
-  ∃ d : List Edge, (allEdges cap).Perm
+  ∃ d : List MeshLemmas.Edge, (allEdges cap).Perm
     ((if forward then ringF n r else (ringF n r).map Prod.swap) ++ d ++ d.map Prod.swap)
 
 theorem allEdges_append (a b : List (List Nat)) : allEdges (a ++ b) = allEdges a ++ allEdges b := by
@@ -328,6 +328,220 @@ theorem cylinder_closed (r height : ℝ) (hr : 0 < r) (seg : Nat) (p : Polyhedro
   injection ht' with ht'; injection hb' with hb'
   subst ht'; subst hb'
   exact ⟨hlb, hlt⟩
+
+/-! ### enclosed volume (clockwise-outside convention) -/
+/-- six times the signed volume contributed by one face (fan from its first vertex) -/
+noncomputable def faceVol (p : Nat → Pt3 ℝ) : List Nat → ℝ
+  | v0 :: rest => sixVolumeCCWAt.fan p (p v0) rest
+  | [] => 0
+
+theorem six_eq_sum (p : Nat → Pt3 ℝ) (faces : List (List Nat)) :
+    sixVolumeCCWAt p faces = (faces.map (faceVol p)).sum := by
+  unfold sixVolumeCCWAt
+  have : ∀ (l : List (List Nat)) (init : ℝ),
+      l.foldl (fun acc f => match f with | v0 :: rest => acc + sixVolumeCCWAt.fan p (p v0) rest | [] => acc) init =
+        init + (l.map (faceVol p)).sum := by
+    intro l
+    induction l with
+    | nil => intro init; simp
+    | cons f fs ih =>
+      intro init
+      rw [List.foldl_cons, ih]
+      cases f with
+      | nil => simp [faceVol]
+      | cons v0 rest => simp [faceVol]; ring
+  exact (this faces 0).trans (zero_add _)
+
+theorem six_append (p : Nat → Pt3 ℝ) (a b : List (List Nat)) :
+    sixVolumeCCWAt p (a ++ b) = sixVolumeCCWAt p a + sixVolumeCCWAt p b := by
+  simp [six_eq_sum]
+
+theorem faceVol_tri (p : Nat → Pt3 ℝ) (a b c : Nat) :
+    faceVol p [a, b, c] = Pt3.dot (p a) (Pt3.cross (p b) (p c)) := by
+  simp [faceVol, sixVolumeCCWAt.fan]
+theorem faceVol_quad (p : Nat → Pt3 ℝ) (a b c d : Nat) :
+    faceVol p [a, b, c, d] = Pt3.dot (p a) (Pt3.cross (p b) (p c)) + Pt3.dot (p a) (Pt3.cross (p c) (p d)) := by
+  simp [faceVol, sixVolumeCCWAt.fan]
+
+/-- the point function of a linear extrusion -/
+noncomputable def exPt (profile : List (Pt2 ℝ)) (h : ℝ) (i : Nat) : Pt3 ℝ :=
+  (profile.map (·.asPt3 0) ++ profile.map (·.asPt3 h)).getD i ⟨0, 0, 0⟩
+
+theorem exPt_lo (profile : List (Pt2 ℝ)) (h : ℝ) (i : Nat) (hi : i < profile.length) :
+    exPt profile h i = ⟨(profile.getD i d0).x, (profile.getD i d0).y, 0⟩ := by
+  simp [exPt, List.getD_eq_getElem?_getD, List.getElem?_append_left, hi, Pt2.asPt3]
+theorem exPt_hi (profile : List (Pt2 ℝ)) (h : ℝ) (i : Nat) (hi : i < profile.length) :
+    exPt profile h (i + profile.length) = ⟨(profile.getD i d0).x, (profile.getD i d0).y, h⟩ := by
+  simp [exPt, List.getD_eq_getElem?_getD, List.getElem?_append_right, hi, Pt2.asPt3]
+
+/-- a triangle in the plane z = 0 spans no volume with the origin -/
+theorem det_z0 (a b c : Pt2 ℝ) :
+    Pt3.dot (⟨a.x, a.y, 0⟩ : Pt3 ℝ) (Pt3.cross ⟨b.x, b.y, 0⟩ ⟨c.x, c.y, 0⟩) = 0 := by
+  simp [Pt3.dot, Pt3.cross]
+/-- a triangle in the plane z = h -/
+theorem det_zh (a b c : Pt2 ℝ) (h : ℝ) :
+    Pt3.dot (⟨a.x, a.y, h⟩ : Pt3 ℝ) (Pt3.cross ⟨b.x, b.y, h⟩ ⟨c.x, c.y, h⟩) = h * Spec.cross3 a b c := by
+  simp only [Pt3.dot, Pt3.cross, Spec.cross3]; ring
+/-- a side quad -/
+theorem det_quad (a b : Pt2 ℝ) (h : ℝ) :
+    Pt3.dot (⟨a.x, a.y, 0⟩ : Pt3 ℝ) (Pt3.cross ⟨b.x, b.y, 0⟩ ⟨b.x, b.y, h⟩) +
+      Pt3.dot (⟨a.x, a.y, 0⟩ : Pt3 ℝ) (Pt3.cross ⟨b.x, b.y, h⟩ ⟨a.x, a.y, h⟩) = 2 * h * cross2 a b := by
+  simp only [Pt3.dot, Pt3.cross, cross2]; ring
+
+
+theorem chain_range : ∀ (l : List (Pt2 ℝ)),
+    chain l = ((List.range (l.length - 1)).map fun i => cross2 (l.getD i d0) (l.getD (i + 1) d0)).sum
+  | [] => by simp [chain]
+  | [_] => by simp [chain]
+  | a :: b :: rest => by
+    have ih := chain_range (b :: rest)
+    simp only [chain, List.length_cons, Nat.add_sub_cancel] at ih ⊢
+    rw [ih, List.range_succ_eq_map, List.map_cons, List.sum_cons, List.map_map]
+    simp [Function.comp_def, List.getD_cons_succ]
+
+/-- the shoelace sum by position, with the wrap-around index `(i+1) % n` the builders use -/
+theorem area2_range (l : List (Pt2 ℝ)) (hn : 1 ≤ l.length) :
+    area2 l = ((List.range l.length).map fun i => cross2 (l.getD i d0) (l.getD ((i + 1) % l.length) d0)).sum := by
+  obtain ⟨k, hk⟩ : ∃ k, l.length = k + 1 := ⟨l.length - 1, by omega⟩
+  rw [area2_eq, chain_range, hk, List.range_succ, List.map_append, List.sum_append]
+  simp only [Nat.add_sub_cancel, List.map_cons, List.map_nil, List.sum_cons, List.sum_nil, add_zero,
+    Nat.mod_self]
+  congr 1
+  apply congrArg
+  apply List.map_congr_left
+  intro i hi
+  simp only [List.mem_range] at hi
+  rw [Nat.mod_eq_of_lt (by omega)]
+
+theorem bottom_zero (profile : List (Pt2 ℝ)) (h : ℝ) : ∀ (l : List Nat), (∀ i ∈ l, i < profile.length) →
+    sixVolumeCCWAt (exPt profile h) (triFaces 0 l) = 0
+  | [], _ => by simp [triFaces, sixVolumeCCWAt]
+  | [_], _ => by simp [triFaces, sixVolumeCCWAt]
+  | [_, _], _ => by simp [triFaces, sixVolumeCCWAt]
+  | a :: b :: c :: rest, hl => by
+    have ih := bottom_zero profile h rest (fun i hi => hl i (by simp [hi]))
+    have ha := hl a (by simp); have hb := hl b (by simp); have hc := hl c (by simp)
+    rw [six_eq_sum] at ih ⊢
+    simp only [triFaces, List.map_cons, List.sum_cons, ih, add_zero, Nat.add_zero, faceVol_tri,
+      exPt_lo profile h _ ha, exPt_lo profile h _ hb, exPt_lo profile h _ hc, det_z0]
+
+theorem top_sum (profile : List (Pt2 ℝ)) (h : ℝ) : ∀ (l : List Nat), (∀ i ∈ l, i < profile.length) →
+    sixVolumeCCWAt (exPt profile h) (triFaces profile.length l) = h * C03.sumTri profile l
+  | [], _ => by simp [triFaces, sixVolumeCCWAt, C03.sumTri, triples]
+  | [_], _ => by simp [triFaces, sixVolumeCCWAt, C03.sumTri, triples]
+  | [_, _], _ => by simp [triFaces, sixVolumeCCWAt, C03.sumTri, triples]
+  | a :: b :: c :: rest, hl => by
+    have ih := top_sum profile h rest (fun i hi => hl i (by simp [hi]))
+    have ha := hl a (by simp); have hb := hl b (by simp); have hc := hl c (by simp)
+    rw [six_eq_sum] at ih ⊢
+    simp only [C03.sumTri] at ih ⊢
+    simp only [triFaces, triples, List.map_cons, List.sum_cons, ih, faceVol_tri,
+      exPt_hi profile h _ ha, exPt_hi profile h _ hb, exPt_hi profile h _ hc, det_zh]
+    ring
+
+theorem strip_sum (profile : List (Pt2 ℝ)) (h : ℝ) (hn : 1 ≤ profile.length) :
+    sixVolumeCCWAt (exPt profile h) (strip profile.length 0 1) = 2 * h * area2 profile := by
+  rw [six_eq_sum, area2_range profile hn, strip, List.map_map, ← List.sum_map_mul_left]
+  congr 1
+  apply List.map_congr_left
+  intro i hi
+  simp only [List.mem_range] at hi
+  have hs : (i + 1) % profile.length < profile.length := Nat.mod_lt _ (by omega)
+  simp only [Function.comp, faceVol_quad, Nat.zero_mul, Nat.zero_add, Nat.one_mul]
+  rw [exPt_lo profile h i hi, exPt_lo profile h _ hs, Nat.add_comm profile.length ((i + 1) % profile.length),
+    Nat.add_comm profile.length i, exPt_hi profile h _ hs, exPt_hi profile h i hi, det_quad]
+
+
+/-- **C05, volume of a linear extrusion.** When the top cap is complete, the enclosed volume measured
+under the library's clockwise-outside convention is exactly `height · area`, where `area =
+−area2/2` is the (positive) area of a clockwise profile — for every profile, simple or not. -/
+theorem linearExtrude_volume (profile : List (Pt2 ℝ)) (height : ℝ) (p : Polyhedron ℝ)
+    (h : linearExtrude profile height = some p)
+    (hcomplete : ∀ top, Tri.triangulate2d profile = some top → top.length = 3 * (profile.length - 2)) :
+    signedVolumeCW p.points p.faces = height * (-(area2 profile) / 2) := by
+  obtain ⟨b, t, hb, ht, hf, _⟩ := linearExtrude_faces profile height p h
+  have hp := C05.linearExtrude_points profile height p h
+  have hn : 3 < profile.length := by
+    unfold Tri.triangulate2d at ht; split at ht
+    · assumption
+    · simp at ht
+  have sb := (C03.triangulate2d_spec profile).2.2 b hb
+  have st := (C03.triangulate2d_spec profile).2.1 t ht
+  have et : t = Tri.triangulate (Tri.indexed profile) := by
+    unfold Tri.triangulate2d at ht; rw [if_pos hn] at ht; injection ht with ht; exact ht.symm
+  have hc := hcomplete t ht
+  have harea : C03.sumTri profile t = area2 profile := by
+    rw [et] at hc ⊢
+    have hl : (Tri.indexed profile).length = profile.length := by simp [Tri.indexed]
+    have := C03.complete_area profile (Tri.indexed profile) (C03.indexed_consistent profile) (by omega)
+      (by rw [hl]; exact hc)
+    rwa [C03.pts_indexed] at this
+  have hsix : sixVolumeCCW p.points p.faces = 3 * height * area2 profile := by
+    unfold sixVolumeCCW
+    rw [hp, hf]
+    show sixVolumeCCWAt (exPt profile height) _ = _
+    rw [six_append, six_append, bottom_zero profile height b sb.1, top_sum profile height t st.1,
+      strip_sum profile height (by omega), harea]
+    ring
+  unfold signedVolumeCW
+  rw [hsix]
+  simp only [cast_eq_natCast]
+  norm_num
+  ring
+
+
+/-- a strictly convex clockwise polygon has negative signed area -/
+theorem convex_area_neg : ∀ (n : Nat) (l : List (Pt2 ℝ)), l.length = n + 3 → ConvexPos false l → area2 l < 0
+  | 0, l, hl, hc => by
+    have h := area2_eraseIdx l 0 (by omega) (by omega)
+    have hz : area2 (l.eraseIdx 0) = 0 := area2_short _ (by rw [List.length_eraseIdx, if_pos (by omega)]; omega)
+    have ho := hc 0 1 2 (by omega) (by omega) (by omega)
+    simp only [Oriented, Bool.false_eq_true, if_false] at ho
+    have hp : Tri.prevIdx l.length 0 = 2 := by simp [Tri.prevIdx, hl]
+    have hx : Tri.nextIdx l.length 0 = 1 := by unfold Tri.nextIdx; rw [if_neg (by omega)]
+    rw [hp, hx, hz] at h
+    have : Spec.cross3 (l.getD 2 d0) (l.getD 0 d0) (l.getD 1 d0) = Tri.cross3 (l.getD 0 d0) (l.getD 1 d0) (l.getD 2 d0) := by
+      simp only [Spec.cross3, Tri.cross3]; ring
+    rw [h, this]; linarith
+  | n + 1, l, hl, hc => by
+    have h := area2_eraseIdx l 0 (by omega) (by omega)
+    have ih := convex_area_neg n (l.eraseIdx 0) (by rw [List.length_eraseIdx, if_pos (by omega)]; omega) (convex_tail false l hc)
+    have ho := hc 0 1 (l.length - 1) (by omega) (by omega) (by omega)
+    simp only [Oriented, Bool.false_eq_true, if_false] at ho
+    have hp : Tri.prevIdx l.length 0 = l.length - 1 := by simp [Tri.prevIdx]
+    have hx : Tri.nextIdx l.length 0 = 1 := by unfold Tri.nextIdx; rw [if_neg (by omega)]
+    rw [hp, hx] at h
+    have : Spec.cross3 (l.getD (l.length - 1) d0) (l.getD 0 d0) (l.getD 1 d0) =
+        Tri.cross3 (l.getD 0 d0) (l.getD 1 d0) (l.getD (l.length - 1) d0) := by
+      simp only [Spec.cross3, Tri.cross3]; ring
+    rw [h, this]; linarith
+
+/-- **C04/C05, cylinders.** Every cylinder (radius > 0, height > 0, any segment count the builder
+accepts) encloses exactly `height ·` (area of its n-gon) under the clockwise-outside convention, and
+that is positive: its faces wind clockwise seen from outside. -/
+theorem cylinder_volume (r height : ℝ) (hr : 0 < r) (hh : 0 < height) (seg : Nat) (p : Polyhedron ℝ)
+    (h : cylinder r height seg = some p) :
+    ∃ c, Dim2.circle r seg = some c ∧ signedVolumeCW p.points p.faces = height * (-(area2 c) / 2) ∧
+      0 < signedVolumeCW p.points p.faces := by
+  unfold cylinder at h
+  simp only [Option.bind_eq_bind] at h
+  obtain ⟨c, hc, h⟩ := C05.bind_some h
+  have hconv := C07.circle_convex r hr seg c hc
+  obtain ⟨b, t, hb, ht, _, _⟩ := linearExtrude_faces c height p h
+  have hn : 3 < c.length := by
+    unfold Tri.triangulate2d at ht; split at ht
+    · assumption
+    · simp at ht
+  have hvol := linearExtrude_volume c height p h (by
+    intro top htop
+    obtain ⟨⟨t', ht', hlt⟩, _⟩ := C03.convex_complete false c hn hconv
+    rw [htop] at ht'; injection ht' with ht'; subst ht'; exact hlt)
+  have hneg := convex_area_neg (c.length - 3) c (by omega) hconv
+  refine ⟨c, hc, hvol, ?_⟩
+  rw [hvol]
+  have : 0 < -(area2 c) / 2 := by linarith
+  positivity
+
 
 /-- non-vacuity of the certificate: the two triangles of a square tile its ring -/
 example : CapTiles 4 0 true [[0, 1, 2], [0, 2, 3]] :=
